@@ -72,7 +72,7 @@ package mqtt
 //@   let sig0 *signaller = c.sig
 //@   ensures[C12,C15] id_kept: id0 != 0 ==> message.ID == id0
 //@   ensures[C12,C15] id_new: id0 == 0 ==> message.ID != 0 && evCount("(*BaseClient).newID") == 1 && message.ID == evRet[uint16]("(*BaseClient).newID", 0, 0)
-//@   ensures[C12] dup: message.Dup == dup
+//@   ensures[C05,C12] dup: message.Dup == dup
 //@   ensures[C12] frame: message.Topic == topic0 && message.QoS == qos0 && message.Retain == retain0 && sameSlice(message.Payload, payload0)
 //@   ensures[C05,C12] wire: evCount("(*BaseClient).write") <= 1 && (evCount("(*BaseClient).write") == 1 ==> seqEq(evBytes("(*BaseClient).write", 0, 1), specPublish(message)))
 //@   ensures[C01,C07,C12,C19] on_own_client: (evCount("(*BaseClient).write") == 1 ==> evArg[*BaseClient]("(*BaseClient).write", 0, 0) == c) &&
@@ -82,7 +82,7 @@ package mqtt
 //@             chanCap(evArg[chan *pktPubRec]("mapstore:map<uint16,chan *pktPubRec>", 0, 2)) >= 1) &&
 //@        (evCount("publishImpl$2") == 1 ==> evArg[*BaseClient]("publishImpl$2", 0, 1) == c)
 //@   ensures[C12] qos0_no_handle: qos0 == QoS0 ==> !isRetryErr(result) && evCount("publishImpl$2") == 0
-//@   ensures[C01,C02,C19] interrupted: sig0 != nil && qos0 > QoS0 && result != nil && result != io.EOF ==> isRetryErr(result)
+//@   ensures[C01,C02,C18,C19] interrupted: sig0 != nil && qos0 > QoS0 && result != nil && result != io.EOF ==> isRetryErr(result)
 //@   ensures[C02,C12] stage1: evCount("publishImpl$2") == 0 && isRetryErr(result) ==>
 //@        closureIs(retryOf(result), "publishImpl$1") && *closureVarN[**Message](retryOf(result), "publishImpl$1", "message") == message
 //@   ensures[C02,C12] stage2: evCount("publishImpl$2") == 1 ==> result == evRet[error]("publishImpl$2", 0, 0) && qos0 == QoS2
@@ -103,7 +103,7 @@ package mqtt
 //@   ensures[C11,C19] cancel_cause: evCount("select") == 1 && evRet[int]("select", 0, 0) == 1 && isRetryErr(result) ==>
 //@        evCount("context.Context.Err") == 1 && evArg[context.Context]("context.Context.Err", 0, 0) == ctx &&
 //@        asError(asRetryErr(result).errorInterface).Err == evRet[error]("context.Context.Err", 0, 0)
-//@   ensures[C11,C19] closed_cause: evCount("select") == 1 && evRet[int]("select", 0, 0) == 0 ==>
+//@   ensures[C01,C02,C11,C19] closed_cause: evCount("select") == 1 && evRet[int]("select", 0, 0) == 0 ==>
 //@        isRetryErr(result) && asError(asRetryErr(result).errorInterface).Err == ErrClosedTransport
 //@   ensures[C19] not_connected: sig0 == nil ==> result == ErrNotConnected && evCount("(*BaseClient).write") == 0
 
@@ -129,7 +129,7 @@ package mqtt
 //@        (evCount("(*BaseClient).write") == 1 ==> seqEq(evBytes("(*BaseClient).write", 0, 1), specAck(0x62, message.ID)))
 //@   ensures[C02,C12] stage: isRetryErr(result) ==> closureIs(retryOf(result), "publishImpl$2") &&
 //@        *closureVarN[**Message](retryOf(result), "publishImpl$2", "message") == message
-//@   ensures[C01,C02,C19] interrupted: sig0 != nil && result != nil && result != io.EOF ==> isRetryErr(result)
+//@   ensures[C01,C02,C18,C19] interrupted: sig0 != nil && result != nil && result != io.EOF ==> isRetryErr(result)
 //@   ensures[C01,C07,C12,C19] on_given_client: (evCount("(*BaseClient).write") == 1 ==> evArg[*BaseClient]("(*BaseClient).write", 0, 0) == cli) &&
 //@        (evCount("mapstore:map<uint16,chan *pktPubComp>") == 1 ==> sameMap(evArg[map[uint16]chan *pktPubComp]("mapstore:map<uint16,chan *pktPubComp>", 0, 0), sig0.chPubComp) &&
 //@             chanCap(evArg[chan *pktPubComp]("mapstore:map<uint16,chan *pktPubComp>", 0, 2)) >= 1)
@@ -142,7 +142,7 @@ package mqtt
 //@   ensures[C11,C19] cancel_cause: evCount("select") == 1 && evRet[int]("select", 0, 0) == 1 && isRetryErr(result) ==>
 //@        evCount("context.Context.Err") == 1 && evArg[context.Context]("context.Context.Err", 0, 0) == ctx &&
 //@        asError(asRetryErr(result).errorInterface).Err == evRet[error]("context.Context.Err", 0, 0)
-//@   ensures[C11,C19] closed_cause: evCount("select") == 1 && evRet[int]("select", 0, 0) == 0 ==>
+//@   ensures[C01,C02,C11,C19] closed_cause: evCount("select") == 1 && evRet[int]("select", 0, 0) == 0 ==>
 //@        isRetryErr(result) && asError(asRetryErr(result).errorInterface).Err == ErrClosedTransport
 
 // ---- subscribe / unsubscribe (C01, C07, C11, C15, C19) ----
@@ -174,14 +174,14 @@ package mqtt
 //@        result1 != nil && asError(result1) != nil && asError(result1).Err == ErrInvalidSubAck && evCount("Transport.Close") == 1
 //@   ensures[C07] granted: result1 == nil ==> len(result0) == n0 && len(evRet[*pktSubAck]("select", 0, 4).Codes) == n0 &&
 //@        forall(0, n0, func(j int) bool { return result0[j].QoS == QoS(evRet[*pktSubAck]("select", 0, 4).Codes[j]) }) && sameSlice(result0, subs)
-//@   ensures[C01,C19] interrupted: sig0 != nil && result1 != nil && result1 != io.EOF && !(evCount("select") == 1 && evRet[int]("select", 0, 0) == 2) ==> isRetryErr(result1)
+//@   ensures[C01,C02,C18,C19] interrupted: sig0 != nil && result1 != nil && result1 != io.EOF && !(evCount("select") == 1 && evRet[int]("select", 0, 0) == 2) ==> isRetryErr(result1)
 //@   ensures[C01,C19] handle: isRetryErr(result1) ==> closureIs(retryOf(result1), "subscribeImpl$1") && sameSlice(*closureVarN[*[]Subscription](retryOf(result1), "subscribeImpl$1", "subs"), subs)
 //@   ensures[C11] waitset: evCount("select") == 1 ==> evRet[int]("select", 0, 0) >= 0 && evArg[chan struct{}]("select", 0, 0) == c.connClosed &&
 //@        evArg[<-chan struct{}]("select", 0, 1) == evRet[<-chan struct{}]("context.Context.Done", 0, 0) && evArg[context.Context]("context.Context.Done", 0, 0) == ctx
 //@   ensures[C11] no_bare_block: evCount("recv") == 0 && evCount("send") == 0
 //@   ensures[C11,C19] cancel_cause: evCount("select") == 1 && evRet[int]("select", 0, 0) == 1 && isRetryErr(result1) ==>
 //@        evArg[context.Context]("context.Context.Err", 0, 0) == ctx && asError(asRetryErr(result1).errorInterface).Err == evRet[error]("context.Context.Err", 0, 0)
-//@   ensures[C11,C19] closed_cause: evCount("select") == 1 && evRet[int]("select", 0, 0) == 0 ==>
+//@   ensures[C01,C02,C11,C19] closed_cause: evCount("select") == 1 && evRet[int]("select", 0, 0) == 0 ==>
 //@        isRetryErr(result1) && asError(asRetryErr(result1).errorInterface).Err == ErrClosedTransport
 //@   ensures[C19] not_connected: sig0 == nil ==> result1 == ErrNotConnected && evCount("(*BaseClient).write") == 0
 
@@ -214,14 +214,14 @@ package mqtt
 //@   ensures[C07,C11] nil_only_acked: result == nil ==> evCount("select") == 1 && evRet[int]("select", 0, 0) == 2 &&
 //@        evArg[chan *pktUnsubAck]("select", 0, 2) == evArg[chan *pktUnsubAck]("mapstore:map<uint16,chan *pktUnsubAck>", 0, 2) &&
 //@        evIndex("(*BaseClient).write", 0) < evIndex("select", 0)
-//@   ensures[C01,C02,C19] interrupted: sig0 != nil && result != nil && result != io.EOF ==> isRetryErr(result)
+//@   ensures[C01,C02,C18,C19] interrupted: sig0 != nil && result != nil && result != io.EOF ==> isRetryErr(result)
 //@   ensures[C01,C19] handle: isRetryErr(result) ==> closureIs(retryOf(result), "unsubscribeImpl$1") && sameSlice(*closureVarN[*[]string](retryOf(result), "unsubscribeImpl$1", "subs"), subs)
 //@   ensures[C11] waitset: evCount("select") == 1 ==> evRet[int]("select", 0, 0) >= 0 && evArg[chan struct{}]("select", 0, 0) == c.connClosed &&
 //@        evArg[<-chan struct{}]("select", 0, 1) == evRet[<-chan struct{}]("context.Context.Done", 0, 0) && evArg[context.Context]("context.Context.Done", 0, 0) == ctx
 //@   ensures[C11] no_bare_block: evCount("recv") == 0 && evCount("send") == 0
 //@   ensures[C11,C19] cancel_cause: evCount("select") == 1 && evRet[int]("select", 0, 0) == 1 && isRetryErr(result) ==>
 //@        evArg[context.Context]("context.Context.Err", 0, 0) == ctx && asError(asRetryErr(result).errorInterface).Err == evRet[error]("context.Context.Err", 0, 0)
-//@   ensures[C11,C19] closed_cause: evCount("select") == 1 && evRet[int]("select", 0, 0) == 0 ==>
+//@   ensures[C01,C02,C11,C19] closed_cause: evCount("select") == 1 && evRet[int]("select", 0, 0) == 0 ==>
 //@        isRetryErr(result) && asError(asRetryErr(result).errorInterface).Err == ErrClosedTransport
 //@   ensures[C19] not_connected: sig0 == nil ==> result == ErrNotConnected && evCount("(*BaseClient).write") == 0
 
